@@ -179,7 +179,7 @@ Proof.
     rewrite <- (mapM_ext_dec (fun s => omap pair_val (D s)) (dec (TContainer false [k; v])) _ HD), <- mapM_omap.
     destruct (mapM D _) as [l| |]; cbn [omap]; try reflexivity.
     rewrite btreemap_from_iter_is_collect. reflexivity.
-  - rewrite gen_decode_list_container_eq by exact Hl. subst bs. unfold btreemap_try_from_iter.
+  - rewrite gen_decode_list_container_eq by exact Hl. subst bs. unfold Gen.tfi_btreemap_try_from_iter.
     change (decode_list_var (dec (TContainer false [k; v])) CVec (b0 :: br) None)
       with (dec_seq false 0 (dec (TContainer false [k; v])) (b0 :: br)).
     rewrite <- (dec_seq_ext (fun s => omap pair_val (D s)) (dec (TContainer false [k; v])) false 0 (b0 :: br) HD).
